@@ -33,7 +33,8 @@ fn value(i: u8) -> V {
         0 => V::Int(10),
         1 => V::Str("s".into()),
         2 => V::List(vec![V::Int(1), V::Int(2)]),
-        _ => V::Map(vec![(V::Str("k".into()), V::Bool(true))]),
+        // binding a name to null is a binding like any other
+        _ => V::Null,
     }
 }
 
@@ -211,7 +212,7 @@ pub struct Tmpl {
     pub functions: bool,
 }
 
-pub const TEMPLATES: [&str; 12] = [
+pub const TEMPLATES: [&str; 15] = [
     "A + [1, 2].map(A, A * 2)[0] + A",
     "[[1, 2], [3]].map(A, A.map(B, B + 1))",
     "[1].map(A, A)[0] + A",
@@ -224,6 +225,10 @@ pub const TEMPLATES: [&str; 12] = [
     "[1, 2].map(A, A)[1] + [3].map(B, A)[0]",
     "has({'k': A}.k) && [A].all(A, A == A) ? [B].map(B, B)[0] : C",
     "[[1], [2]].map(A, A.filter(A, A > 1).size()) + [A]",
+    // the function named like the iteration variable stays callable inside the body (only meaningful with functions registered)
+    "[1, 2].map(A, A() + A)",
+    "[1, 2].map(A, [3].map(B, A() + B() + A + B))",
+    "[A(), [5].map(A, A)[0], [A()].map(B, B + A())[0]]",
 ];
 
 fn instantiate(t: &Tmpl) -> String {
@@ -275,7 +280,10 @@ fn template_expr(t: &Tmpl) -> E {
             b(idx(mac(Mac::Map, l(vec![v(&bb)]), &bb, v(&bb)), 0)),
             b(v(&c)),
         ),
-        _ => E::bin(O::Add, mac(Mac::Map, l(vec![l(vec![i(1)]), l(vec![i(2)])]), &a, E::mcall(mac(Mac::Filter, v(&a), &a, E::bin(O::Gt, v(&a), i(1))), "size", vec![])), l(vec![v(&a)])),
+        11 => E::bin(O::Add, mac(Mac::Map, l(vec![l(vec![i(1)]), l(vec![i(2)])]), &a, E::mcall(mac(Mac::Filter, v(&a), &a, E::bin(O::Gt, v(&a), i(1))), "size", vec![])), l(vec![v(&a)])),
+        12 => mac(Mac::Map, l(vec![i(1), i(2)]), &a, E::bin(O::Add, E::call(&a, vec![]), v(&a))),
+        13 => mac(Mac::Map, l(vec![i(1), i(2)]), &a, mac(Mac::Map, l(vec![i(3)]), &bb, E::bin(O::Add, E::bin(O::Add, E::bin(O::Add, E::call(&a, vec![]), E::call(&bb, vec![])), v(&a)), v(&bb)))),
+        _ => l(vec![E::call(&a, vec![]), idx(mac(Mac::Map, l(vec![i(5)]), &a, v(&a)), 0), idx(mac(Mac::Map, l(vec![E::call(&a, vec![])]), &bb, E::bin(O::Add, v(&bb), E::call(&a, vec![]))), 0)]),
     }
 }
 
@@ -285,9 +293,9 @@ fn ctx_values(defined: u8) -> Vec<(String, V)> {
 }
 
 fn check_program(src: &str, e: &E, vars: &[(String, V)], functions: bool, extra_note: &str) -> Outcome {
-    let mut st = St::new(vars, vec![]);
-    let model = eval(e, &mut st);
-    if let Err(Stop::Unsupported(w)) = &model {
+    let cf: Vec<(String, V)> = if functions { vec![("x".to_string(), V::Int(100)), ("y".to_string(), V::Int(101)), ("z".to_string(), V::Int(102))] } else { vec![] };
+    let variants = crate::props::c03::model_variants_with(e, vars, &vec![], false, &cf);
+    if let Err(Stop::Unsupported(w)) = &variants[0].0 {
         return Outcome::Skip(w);
     }
     let prog = match sut::compile(src) {
@@ -304,9 +312,10 @@ fn check_program(src: &str, e: &E, vars: &[(String, V)], functions: bool, extra_
     let log = sut::new_log();
     sut::install_host(&mut ctx, &log, &vec![]);
     let got = sut::exec(&prog, &ctx);
-    if !agree(&model, &got) {
-        return fail(format!("`{src}` with {vars:?}{extra_note}: lexical scoping gives {:?}, interpreter gives {}", model, got.show()));
-    }
+    let Some((model, _)) = variants.iter().find(|(m, _)| agree(m, &got)) else {
+        return fail(format!("`{src}` with {vars:?}{extra_note}: lexical scoping gives {:?}, interpreter gives {}", variants[0].0, got.show()));
+    };
+    let model = model.clone();
     // the context must still bind (or not bind) every name exactly as before
     for n in NAMES {
         let before = vars.iter().rev().find(|(k, _)| k == n).map(|(_, v)| v.clone());
